@@ -11,7 +11,8 @@
    (channel values, channel mask bits) of one target location. *)
 From Coq Require Import ZArith Bool List Lia Reals PrimFloat Permutation.
 From PR Require Import Base.Num Base.RNum Base.F64 Model.KDTree
-     Model.C02_run Gen.GenC02 Proofs.C02_lists Proofs.C02_query Proofs.C02_pipeline Proofs.C02_main Proofs.C02_fast Proofs.C02_gen Proofs.C02_sphere Proofs.C02_ext Proofs.C02_history
+     Model.C02_run Gen.GenC02 Proofs.C02_lists Proofs.C02_query Proofs.C02_pipeline Proofs.C02_main Proofs.C02_fast Proofs.C02_gen Proofs.C02_sphere Proofs.C02_ext Proofs.C02_history Proofs.C02_imp Proofs.C02_shape
+     Base.Imp Model.NdArr Gen.GenC02imp
      Base.Slice Model.Partition Proofs.C03_sphere.
 From PR Require Model.Organise.
 Import ListNotations.
@@ -442,6 +443,86 @@ Example C02_ex_valid_f64 :
        (infinity, 0); (0, neg_infinity); (0x1.93e5939a08ceap+99, 0); (-0x1.69p+7, 0)]%float
   = [true; true; false; false; false; false; false; false; false; false].
 Proof. vm_compute. reflexivity. Qed.
+(* ------------------------------------------------------------------------------------------------------------
+   Wave 3 -- code is model.  Gen/GenC02imp.v is regenerated on every run from the CURRENT source of
+   get_sample_from_neighbour_info, _get_empty_sample, _extract_resample_result, _prepare_result and _remask_data
+   (resample_type 'nn', weight_funcs None, with_uncert False): the layout-normalisation ladder, the size check, the
+   empty-result early return, neighbours from index_array.ndim, masked-data stacking, fill selection, gather / scatter
+   order, reshape to target shape + channels, remask, masked_equal and astype are translated statement by statement;
+   each numpy expression is read as the Model/NdArr.v definition named in tools/gen_specs/GenC02imp.json.
+   The generated definitions return exactly the closed forms nd_* where these are defined and raise exactly where
+   they are not ([to_cres None] = CRaised); no fuel is involved (no loops). *)
+Theorem C02_remask_data_code_is_model : forall (V : Type) (veqb : V -> V -> bool) (vzero vone : V) (d : nda V),
+  value_of (imp_remask_data veqb vzero vone d true) = if nd_dim_ok d (-1) then COk (nd_remask veqb vzero vone d) else CRaised.
+Proof. exact (@imp_remask_data_code_is_model). Qed.
+Print Assumptions C02_remask_data_code_is_model.
+Theorem C02_prepare_result_code_is_model : forall (V : Type) (veqb : V -> V -> bool) (vzero vone : V)
+    (result : nda V) (oshape : list Z) (is_masked use_mf : bool) (fillv : V) (dt : option Z),
+  value_of (imp_prepare_result veqb vzero vone result oshape is_masked use_mf fillv dt)
+  = to_cres (nd_prepare veqb vzero vone result oshape is_masked use_mf fillv dt).
+Proof. exact (@imp_prepare_result_code_is_model). Qed.
+Print Assumptions C02_prepare_result_code_is_model.
+Theorem C02_get_empty_sample_code_is_model : forall (V : Type) (vzero : V) (data : nda V) (oshape : list Z) (multi : bool) (fill : option V),
+  value_of (imp_get_empty_sample vzero data oshape multi fill) = to_cres (nd_empty vzero data oshape multi fill).
+Proof. exact (@imp_get_empty_sample_code_is_model). Qed.
+Print Assumptions C02_get_empty_sample_code_is_model.
+Theorem C02_extract_resample_result_code_is_model : forall (V : Type) (veqb : V -> V -> bool) (vzero vone : V) (sentinel_of : Z -> V)
+    (neighbours : Z) (new_data : nda V) (index_array : nda Z) (n : Z) (voi : list bool) (fill : option V) (oshape : list Z)
+    (is_masked multi : bool) (dt : option Z),
+  value_of (imp_extract_resample_result veqb vzero vone sentinel_of tt neighbours new_data index_array tt n voi tt false fill
+                                        oshape is_masked multi dt)
+  = to_cres (nd_extract veqb vzero vone sentinel_of new_data index_array n voi fill oshape is_masked dt).
+Proof. exact (@imp_extract_code_is_model). Qed.
+Print Assumptions C02_extract_resample_result_code_is_model.
+Theorem C02_get_sample_code_is_model : forall (V : Type) (veqb : V -> V -> bool) (vzero vone : V) (sentinel_of : Z -> V)
+    (oshape : list Z) (data : nda V) (vii voi : list bool) (index_array : nda Z) (fill : option V),
+  value_of (imp_get_sample veqb vzero vone sentinel_of tt oshape data vii voi index_array tt tt fill false)
+  = to_cres (nd_get_sample veqb vzero vone sentinel_of oshape data vii voi index_array fill).
+Proof. exact (@imp_get_sample_code_is_model). Qed.
+Print Assumptions C02_get_sample_code_is_model.
+
+(* THE SHAPE LAW, on the translated code: for every accepted layout of the data argument -- (n,), (n, k), (rows, cols),
+   (rows, cols, k) with rows * cols = n = valid_input_index.size -- every 1-D / 2-D target shape, any validity masks, any
+   index array of the right length with entries in [0, n_valid], any fill: the call RETURNS (no exception) an array with
+   the input dtype and shape = target shape ++ channels.  [masked] tells whether the selected data had a masked element;
+   chan_of multi masked k = [k] for multi-channel data, [] for single-channel data, EXCEPT masked multi-channel data with
+   k = 1, which loses its channel axis (known finding C02.shape.masked_single_channel, stated as it is). *)
+Theorem C02_get_sample_shape_law : forall (V : Type) (veqb : V -> V -> bool) (vzero vone : V) (sentinel_of : Z -> V)
+    (oshape : list Z) (data : nda V) (vii voi : list bool) (index_array : nda Z) (fill : option V) (ly : layout),
+  info_ok vii voi index_array oshape ->
+  a_shape data = layout_shape (zlen vii) ly -> layout_ok (zlen vii) ly ->
+  exists r, value_of (imp_get_sample veqb vzero vone sentinel_of tt oshape data vii voi index_array tt tt fill false) = COk r /\
+            a_dtype r = a_dtype data /\
+            exists masked, a_shape r = oshape ++ chan_of (layout_multi ly) masked (layout_k ly).
+Proof.
+  intros V veqb vzero vone sentinel_of oshape data vii voi index_array fill ly Hi Hs Hl.
+  destruct (get_sample_shape_law veqb vzero vone sentinel_of oshape data vii voi index_array fill ly Hi Hs Hl) as (r & Hr & H).
+  exists r. split; [|exact H]. rewrite imp_get_sample_code_is_model, Hr. reflexivity.
+Qed.
+Print Assumptions C02_get_sample_shape_law.
+(* a 1-D data array whose size is not the geometry's is refused (ValueError) *)
+Theorem C02_get_sample_size_mismatch_raises : forall (V : Type) (veqb : V -> V -> bool) (vzero vone : V) (sentinel_of : Z -> V)
+    (oshape : list Z) (data : nda V) (vii voi : list bool) (index_array : nda Z) (fill : option V) (m : Z),
+  a_shape data = [m] -> m <> zlen vii ->
+  value_of (imp_get_sample veqb vzero vone sentinel_of tt oshape data vii voi index_array tt tt fill false) = CRaised.
+Proof.
+  intros. rewrite imp_get_sample_code_is_model, (get_sample_size_mismatch veqb vzero vone sentinel_of oshape data vii voi index_array fill m); auto.
+Qed.
+Print Assumptions C02_get_sample_size_mismatch_raises.
+(* non-vacuity: a (2, 2, 2) masked field on 4 source locations (one invalid), a 2 x 2 target with one invalid location, fill None;
+   the translated code returns shape [2; 2; 2] and the cells of C02_ex_result *)
+Example C02_imp_ex :
+  (let data := mk_nda [2; 2; 2] [11; 12; 21; 22; 31; 32; 41; 42] (Some [false; true; true; true; false; false; true; false]) 7 in
+   let ia := mk_nda [3] [0; 1; 3] None 0 in
+   info_ok ex_vin ex_vout ia [2; 2] /\ layout_ok (zlen ex_vin) (L_geo_k 2 2 2) /\
+   value_of (imp_get_sample Z.eqb 0 1 (fun _ => 255) tt [2; 2] data ex_vin ex_vout ia tt tt None false)
+   = COk (mk_nda [2; 2; 2] [11; 12; 31; 32; 255; 255; 255; 255] (Some [false; true; false; false; true; true; true; true]) 7))%Z.
+Proof.
+  cbv zeta. split; [|split; [cbn; lia|vm_compute; reflexivity]].
+  constructor; [reflexivity|reflexivity| |right; exists 2%Z, 2%Z; repeat split; try reflexivity; vm_compute; congruence].
+  intros i Hi. cbn in Hi. cbn. intuition lia.
+Qed.
+
 (* two row segments of the 2 x 2 target grid give the neighbour info of the single query (C02_ex_result) *)
 Example C02_any_segments_ex :
   Organise.neighbour_info (ex_knn (KDTree.compact ex_vin)) (fun t => nth t ex_vout false) 2%Z [[0; 1]; [2; 3]] 4%Z
